@@ -61,6 +61,59 @@ def visible (obs : List String) : List String := obs.map fun o => ((o.splitOn ";
 
 def hasGoPanic (obs : List String) : Bool := obs.any fun o => (o.splitOn ";p=go;").length > 1
 
+/-! ### the open C05 class `loop-variable-invisible-to-callee`
+
+While a counted loop's variable lives in a register it is not a binding of the loop's scope, so a
+function CALLED from the body that reads the variable through its defining scope does not find it
+(`func g(){i}; for i = 3 {println(g())}`: "identifier not found: i" with registers, 0 1 2 without).
+The class is decided on the session's trees only: some counted-loop form `for NAME = …` whose body can
+use a register at all (no function literal inside), contains a call, and some function literal of the
+session mentions NAME without binding it as a parameter.  Every other difference between the register
+configurations stays a violation. -/
+
+partial def subnodes (n : Node) : List Node :=
+  n :: match n with
+    | .pre _ r => subnodes r
+    | .inf _ l r => subnodes l ++ subnodes r
+    | .stmts l => l.flatMap subnodes
+    | .ifE c a b => subnodes c ++ subnodes a ++ subnodes b
+    | .forE c b => subnodes c ++ subnodes b
+    | .ret v => subnodes v
+    | .builtin _ ps => ps.flatMap subnodes
+    | .fn _ _ _ _ _ b => subnodes b
+    | .macroLit _ b => subnodes b
+    | .call f as => subnodes f ++ as.flatMap subnodes
+    | .arr els => els.flatMap subnodes
+    | .mapLit ks vs => ks.flatMap subnodes ++ vs.flatMap subnodes
+    | .idx _ l i => subnodes l ++ subnodes i
+    | _ => []
+
+def isCall : Node → Bool
+  | .call .. => true
+  | _ => false
+
+def isFnLit : Node → Bool
+  | .fn .. => true
+  | _ => false
+
+/-- a function literal reading `name` from outside (not one of its parameters) -/
+def fnMentionsFree (name : String) : Node → Bool
+  | .fn _ ps _ _ _ body => !ps.contains name && mentions [name] body
+  | _ => false
+
+def loopVariableInvisibleToCallee (asts : List Node) : Bool :=
+  let all := asts.flatMap subnodes
+  all.any fun n =>
+    match n with
+    | .forE (.inf op (.ident name) _) body =>
+      let inBody := subnodes body
+      (op == "ASSIGN" || op == "DEFINE") && inBody.any isCall && !inBody.any isFnLit &&
+        all.any (fnMentionsFree name)
+    | _ => false
+
+def c05Class (c : Case) : String :=
+  if loopVariableInvisibleToCallee (c.asts.filterMap parseAst) then "loop-variable-invisible-to-callee" else ""
+
 def runCase (inp obs : String) : CaseResult :=
   match parseCase inp obs with
   | none => CaseResult.badLine
@@ -85,7 +138,8 @@ def runCase (inp obs : String) : CaseResult :=
         | "C07" => !(hasGoPanic r1 || hasGoPanic r0)
         | _ => true
       { model := model, agree := b == r1 && d == r0, stmtModel := stmtModel, stmtImpl := stmtImpl, tags := tags,
-        nontrivial := !a.all (· == "P") }
+        nontrivial := !a.all (· == "P"),
+        klass := if c.prop == "C05" && !stmtImpl then c05Class c else "" }
     | .error w, _ | _, .error w =>
       { model := "declined:" ++ w, agree := false, stmtModel := true, stmtImpl := stmtCfg, unmodelled := true,
         tags := ("declined:" ++ w) :: tags, nontrivial := !a.all (· == "P") }
